@@ -316,6 +316,9 @@ class Headers:
                 )
 
             proof_of_work = self.get_proof_of_work(current_hash)
+            # the work is measured against the target the bits encode (lbrycrd CheckProofOfWork): the retarget
+            # result before it is rounded down to compact form (and max_target itself) is a little easier
+            target = ArithUint256.from_compact(target.compact)
             if proof_of_work > target:
                 raise InvalidHeader(
                     height, f"insufficient proof of work: {proof_of_work.value} vs target {target.value}"
